@@ -74,6 +74,11 @@ func mergeSlices(dest, src []any) []any {
 }
 
 func mergeMaps(dest, src map[string]any) map[string]any {
+	// the keys of both maps may be paths (a.b.c), e.g. if the maps are elements of a list
+	// defined via environment variables. Both have to be nested structures to be merged
+	// key by key. Otherwise, which of the values survive depends on the order of merging
+	dest = maps.Unflatten(dest, ".")
+
 	for k, v := range maps.Unflatten(src, ".") {
 		old := dest[k]
 		if old == nil {
